@@ -95,10 +95,11 @@ def _sources(short):
     return []   # ILLU
 
 
-def _plant_bc(barcode, segments, delta=0):
+def _plant_bc(barcode, segments, delta=0, only=None):
+    """write the barcode over its segments; delta moves all segments (or only segment `only`)"""
     out, i = [], 0
-    for m, s, e in segments:
-        out.append([m, s + delta, barcode[i:i + (e - s)]])
+    for k, (m, s, e) in enumerate(segments):
+        out.append([m, s + (delta if only in (None, k) else 0), barcode[i:i + (e - s)]])
         i += e - s
     return out
 
@@ -181,7 +182,6 @@ def shards(tier):
             for j, _bc in enumerate(picks):
                 out.append(('sweep', short, label, j, 0))
         out.append(('hd1', short))
-        out.append(('shift', short))
         if _se_mode(short) in ('only', 'ok'):
             out.append(('se', short))
         if short in L.COMPOSITE and short != 'ILLU':
@@ -204,6 +204,20 @@ def _cases(shard, tier):
                     plant = plant + _plant_bc(_pick3(alias)[j], sg)
                     acceptable = True
         ls = _lengths(short, tier)
+        if j is not None:
+            # the same barcode planted off its documented position: accepted only by code that reads the wrong bases
+            p = _prefix(short)
+            for lab, alias, sg in _sources(short):
+                if lab != label:
+                    continue
+                for only in [None] + (list(range(len(sg))) if len(sg) > 1 else []):
+                    for delta in (-2, -1, 1, 2):
+                        if min(s0 for _, s0, _ in sg) + delta < 0:
+                            continue
+                        for l1, l2 in ((L.READLEN, L.READLEN), (p[0] + 3, p[1] + 3)):
+                            for h in (0, 1):
+                                yield {'s': short, 'hd': h, 'plant': base + _plant_bc(_pick3(alias)[j], sg, delta, only),
+                                       'l1': l1, 'l2': None if se_only else l2, 'cls': f'{label}/shift'}, False
         if se_only:
             # the layout has no R2: the sweep is single-end, pairs are only shown to be refused
             for l1 in ls[0]:
@@ -232,18 +246,6 @@ def _cases(shard, tier):
                         for l1, l2 in lens:
                             yield {'s': short, 'hd': 1, 'plant': base + _plant_bc(mut, sg), 'l1': l1,
                                    'l2': None if se_only else l2, 'cls': label + '/sub'}, False
-    elif kind == 'shift':
-        p = _prefix(short)
-        for label, alias, sg in _sources(short):
-            picks = _pick3(alias)
-            for bc in picks[:1] if tier == 'quick' else picks:
-                for delta in (-2, -1, 1, 2):
-                    if min(s for _, s, _ in sg) + delta < 0:
-                        continue
-                    for l1, l2 in ((L.READLEN, L.READLEN), (p[0] + 3, p[1] + 3)):
-                        for hd in (0, 1):
-                            yield {'s': short, 'hd': hd, 'plant': base + _plant_bc(bc, sg, delta), 'l1': l1,
-                                   'l2': None if se_only else l2, 'cls': f'{label}/shift'}, False
     elif kind == 'se':
         if se_only:
             return      # already single-end in the sweep
@@ -375,10 +377,16 @@ def run_shard(shard, tier, acc):
             n_accepted_of_those += emitted
         for sig, d in viols:
             acc.violation(sig, case, d)
+    if shard[0] == 'hd1':
+        for r in ([L.ROWS[short]] if short in L.ROWS else []):
+            if r['weak'] or r['src'] != 'D':
+                acc.count(f"weak-row:{short}:src={r['src']}:{r['weak']}")
+        if short in L.COMPOSITE:
+            acc.count(f'weak-row:{short}:composite:{L.COMPOSITE[short]}')
     if shard[0] == 'sweep' and shard[3] is None and short != 'ILLU':
         alias = [a for lab, a, _ in _sources(short) if lab == shard[2]][0]
         acc.count(f'vacuous:{short}:whitelist {alias} is empty or not shipped')
-    if n_acceptable and not n_accepted_of_those:
+    if shard[0] == 'sweep' and n_acceptable and not n_accepted_of_those and not acc.viol:
         raise bind.HarnessError(f'{short}: none of {n_acceptable} full-length pairs carrying a whitelisted barcode at the '
                                 f'documented position was accepted; the check would be vacuous for this strategy ({shard})')
 
